@@ -50,6 +50,12 @@ Definition fbits_eqb (a b : fbits) : bool :=
 Definition F_same (a b : float) : bool := fbits_eqb (bits_of_F a) (bits_of_F b).
 
 (* ---- C fmod(x, p): x - trunc(x/p)*p computed exactly; the result has the sign of x ---- *)
+(* the integer core: |x| = mx * 2^ex, |p| = mp * 2^ep; both are brought to the common exponent e = min ex ep and the
+   integer remainder is taken.  Returns (r, e) with |fmod(x, p)| = r * 2^e  (proved exact in Proofs/C13_Periodic.v). *)
+Definition fmod_int (mx : positive) (ex : Z) (mp : positive) (ep : Z) : Z * Z :=
+  let e := Z.min ex ep in
+  (((Zpos mx * 2 ^ (ex - e)) mod (Zpos mp * 2 ^ (ep - e)))%Z, e).
+
 Definition fmod_F (x p : float) : float :=
   match Prim2SF x, Prim2SF p with
   | S754_nan, _ => nan
@@ -59,10 +65,7 @@ Definition fmod_F (x p : float) : float :=
   | S754_zero _, _ => x
   | S754_finite _ _ _, S754_infinity _ => x
   | S754_finite sx mx ex, S754_finite _ mp ep =>
-      let e := Z.min ex ep in
-      let X := (Zpos mx * 2 ^ (ex - e))%Z in
-      let P := (Zpos mp * 2 ^ (ep - e))%Z in
-      let r := (X mod P)%Z in
+      let '(r, e) := fmod_int mx ex mp ep in
       (* r < P and r <= X: r * 2^e needs at most 53 bits at exponent e, so this conversion is exact *)
       SF2Prim (binary_normalize prec emax (if sx then - r else r)%Z e sx)
   end.
